@@ -550,5 +550,46 @@ func c14Again(c *Ctx, which string, ta, tb tensor.Tensor, a2, b2 *ref.T, sa, sb,
 	exp := Expect{Kind: MustEqual, Mode: CmpBits, Want: Exact(ref.BroadcastTo(a2, shape), ref.BroadcastTo(b2, shape))}
 	if v := Judge(exp, o); !v.OK {
 		c.Violation(which+":stale-after-in-place-update:"+v.Kind, "broadcasting the same tensor objects (%v, %v) again after their contents were overwritten in place: %s", sa, sb, trunc(v.Detail, 400))
+		return
+	}
+	// third call: the owner has reshaped the first tensor object in place (same rank, extents in
+	// reverse order); whether and how the pair broadcasts follows from the shapes the objects have NOW
+	if len(sa) < 2 || c.Idx%4 != 0 {
+		return
+	}
+	rev := make([]int, len(sa))
+	for i := range sa {
+		rev[i] = sa[len(sa)-1-i]
+	}
+	if ref.ShapeEq(rev, sa) || ta.Reshape(rev...) != nil {
+		return
+	}
+	a3 := a2.Clone()
+	a3.Shape = rev
+	o3 := mon.Capture(nil, func() ([]tensor.Tensor, error) {
+		var x, y tensor.Tensor
+		var err error
+		if uni {
+			x, y, err = ops.UnidirectionalBroadcast(ta, tb)
+		} else {
+			x, y, err = ops.MultidirectionalBroadcast(ta, tb)
+		}
+		if err != nil {
+			return nil, err
+		}
+		return []tensor.Tensor{x, y}, nil
+	})
+	c.Eval(1)
+	c.Count(which+":third-call-after-in-place-reshape", 1)
+	exp3 := Expect{Kind: MustError, Mode: CmpBits, Why: "the reshaped pair does not broadcast"}
+	if uni {
+		if ref.UniBroadcastable(rev, sb) {
+			exp3 = Expect{Kind: MustEqual, Mode: CmpBits, Want: Exact(a3, ref.BroadcastTo(b2, rev))}
+		}
+	} else if w3, err := ref.BroadcastShape(rev, sb); err == nil {
+		exp3 = Expect{Kind: MustEqual, Mode: CmpBits, Want: Exact(ref.BroadcastTo(a3, w3), ref.BroadcastTo(b2, w3))}
+	}
+	if v := Judge(exp3, o3); !v.OK {
+		c.Violation(which+":stale-after-in-place-reshape:"+v.Kind, "broadcasting the same tensor objects again after the first was reshaped in place %v -> %v (second %v): %s", sa, rev, sb, trunc(v.Detail, 400))
 	}
 }
